@@ -6,9 +6,11 @@
 (* Events                                                                  *)
 (*   rnew   total conc           a Reader on a source holding a valid      *)
 (*                               frame of `total' content bytes            *)
-(*   rcall  op sz n err cons     one call: op "read" (buffer size sz) or   *)
-(*                               "writeto"; returned count, error class,   *)
-(*                               source bytes consumed during the call     *)
+(*   rcall  op sz n err cons     one call: op "read" (buffer size sz),     *)
+(*                               "writeto", "size" (value in field size),  *)
+(*                               "apply", "reset" (same source again);     *)
+(*                               returned count, error class, source bytes *)
+(*                               consumed during the call                  *)
 (*   rall   n err                all remaining Read calls of a long run,   *)
 (*                               aggregated (count of bytes, final error)  *)
 (*   rend   same size            delivered bytes equal the content; Size() *)
@@ -21,18 +23,18 @@ CONSTANTS TraceFile
 
 Trace == ndJsonDeserialize(TraceFile)
 
-VARIABLES l, linked
+VARIABLES l, linked, declared
 
-tvars == <<rvars, l, linked>>
+tvars == <<rvars, l, linked, declared>>
 
-TraceInit == InitWith(0) /\ l = 1 /\ linked = FALSE
+TraceInit == InitWith(0) /\ l = 1 /\ linked = FALSE /\ declared = <<0, 0, 0, 0>>
 
 Ev(e) == l <= Len(Trace) /\ Trace[l].ev = e /\ l' = l + 1
 
-TrNew == Ev("rnew") /\ Reset(Trace[l].total) /\ linked' = Trace[l].linked
+TrNew == Ev("rnew") /\ Reset(Trace[l].total) /\ linked' = Trace[l].linked /\ declared' = Trace[l].declared
 
 TrCall ==
-    /\ Ev("rcall") /\ UNCHANGED linked
+    /\ Ev("rcall") /\ UNCHANGED <<linked, declared>>
     /\ LET r == Trace[l]
        IN  CASE r.op = "read" ->
                   \/ /\ Read(r.sz)
@@ -45,20 +47,31 @@ TrCall ==
                   \/ WriteToLate /\ r.err \notin {"none", "eof"}
                   \/ WriteToAtEnd /\ r.n = 0 /\ r.cons = 0
                   \/ InError /\ r.n = 0 /\ r.err \notin {"none", "eof"}
+             [] r.op = "size" ->
+                  /\ UNCHANGED rvars
+                  /\ (SizeKnown => r.size = declared)
+                  /\ (rs = "new" => r.size = <<0, 0, 0, 0>>)
+             [] r.op = "apply" ->
+                  \/ ApplyEarly /\ r.err = "none"
+                  \/ ApplyLate /\ r.err # "none"
+                  \/ InError /\ r.err # "none"
+             [] r.op = "reset" -> Reset(total)
 
 TrAll ==
-    /\ Ev("rall") /\ UNCHANGED linked
+    /\ Ev("rall") /\ UNCHANGED <<linked, declared>>
     /\ rs \in {"new", "read"}
     /\ Trace[l].n = total - delivered /\ Trace[l].err = "eof"
     /\ delivered' = total /\ rs' = "closed" /\ UNCHANGED <<total, window>>
 
 TrBlock ==
-    /\ Ev("rblock") /\ UNCHANGED linked
+    /\ Ev("rblock") /\ UNCHANGED <<linked, declared>>
     /\ IF linked THEN BlockDone(Trace[l].b) /\ window' = Trace[l].dict
        ELSE Trace[l].dict = 0 /\ UNCHANGED rvars
 
 TrEnd ==
-    /\ Ev("rend") /\ UNCHANGED <<rvars, linked>>
+    /\ Ev("rend") /\ UNCHANGED <<rvars, linked, declared>>
+    /\ Trace[l].prefixok                       \* whatever was delivered is a prefix of the content
+    /\ Trace[l].clean                          \* no panic, no call that did not return
     /\ rs = "closed" => Trace[l].same /\ delivered = total
 
 TraceNext == TrNew \/ TrCall \/ TrAll \/ TrBlock \/ TrEnd
